@@ -53,7 +53,7 @@ ASSUMPTIONS = [
 EXHAUSTIVE = {"quick": False, "thorough": False}
 FINDING_CLASSES = dict(T.FINDING_KEYS)
 META = {
-    "level_text": "proof (partial): analysis soundness for all IR programs + single-channel theorem over all executions of the regenerated IR, guarded by 28 finding site classes; implicit runtime exceptions and termination by correspondence only",
+    "level_text": "proof (partial): analysis soundness for all IR programs + single-channel theorem over all executions of the regenerated IR, guarded by 29 finding site classes; implicit runtime exceptions and termination by correspondence only",
     "level_note": (
         "Proved in Coq: (1) C03_analysis_sound — for every exception-flow IR program, table passing the executable post-fixpoint "
         "check, mode and function, every raise site that an execution of the nondeterministic big-step semantics lets escape is in "
@@ -544,6 +544,8 @@ def directed():
         add("dataclass", "parse_args", ["--dc=" + v])
         add("dataclass", "parse_object", {"out": v})
         add("paths", "parse_env", {"APP_INNER": v})
+    add("basic", "parse_env", {"APP_ANY": "{class_path: calendar.Calendar, init_args: 3}"})   # any-class-spec-init-args-not-mapping
+    add("basic", "parse_object", {"any": {"class_path": "calendar.Calendar", "init_args": 3}})
     # the channels themselves
     add("basic", "parse_args", ["--a=x"])
     add("basic", "parse_args", ["--zz=1"])
